@@ -5,7 +5,7 @@ APP = "routee-compass"
 OPS = APP + "/src/app/compass/compass_app_ops.rs"
 CA = APP + "/src/app/compass/compass_app.rs"
 mb = KaniUnit("c06_mb", APP, modules=[dict(file=OPS, src="c06_min_bin.rs")],
-              harnesses=[H("c06_min_bin_contract", "bounded", "min_bin on the real code: Err iff empty; otherwise the index of a least total", bound="<= 3 bins, finite non-negative totals", timeout=150)])
+              harnesses=[H("c06_min_bin_contract", "bounded", "min_bin on the real code, bit-precise (supplement to the Verus proof of unit c06_balance, which is unbounded under A-REAL): Err iff empty; otherwise the index of a least total", bound="<= 3 bins, finite non-negative totals", timeout=150)])
 wit = KaniUnit("c06_wit", APP, modules=[dict(file=CA, src="app_wit.rs")], harnesses=[])
 wit.native_witnesses = ["c06_wit_one_response_per_query", "c12_wit_rejected_only_batches", "c06_wit_malformed_weight_estimate_does_not_fail_the_batch", "c06_wit_failing_child_of_an_expansion_does_not_take_its_siblings", "c17_wit_flatten_partial_expansion"]
 cw = KaniUnit("c06_cache_wit", "routee-compass-core", modules=[dict(file="routee-compass-core/src/util/cache_policy/float_cache_policy.rs", src="c06_cache_wit.rs")], harnesses=[])
@@ -13,8 +13,8 @@ cw.native_witnesses = ["c06_wit_cache_keys_separate_different_inputs"]
 rn = VerusUnit("c06_run", "c06_run", rlimit=30, paired_kani=(wit, []))
 UNITS = [VerusUnit("c06_balance", "c06_balance", rlimit=60), VerusUnit("c06_output", "c06_output", rlimit=30), rn, VerusUnit("c08_vehicle", "c08_vehicle", rlimit=60), mb, wit, cw]
 EXPLANATION = ("independence of the response multiset from the rayon SCHEDULE is NOT decided by a proof about threads (Kani has no threads, Verus has no model of rayon): it is reduced to an explicit assumption about rayon. Decided: CompassApp::run (unit c06_run, Verus on the verbatim function; the three rayon / itertools pipelines -- the input-plugin stage and the two batch runners -- are opaque helpers whose contracts ARE the assumption about rayon: every element processed exactly once, order kept): one response per query reaches the caller -- every rejected query's error response and, with responses kept in memory, one response per query that input processing made of the accepted ones -- and the response writer is asked to write EVERY response of the batch exactly once, rejected and run, under both persistence policies, with the run-time override of the policy honoured; the early return for a batch without runnable queries still returns and records the rejected ones;  apply_load_balancing_policy (Verus, any batch and "
-               "parallelism) returns exactly `parallelism` bins that PARTITION the batch (every query in exactly one bin, input order kept inside a bin), empty batch => no bins, parallelism 0 => Err not panic; min_bin (Kani, bounded); "
+               "parallelism) returns exactly `parallelism` bins that PARTITION the batch (every query in exactly one bin, input order kept inside a bin), empty batch => no bins, parallelism 0 => Err not panic; min_bin VERIFIED in the same unit (rule R-minby: the enumerate / min_by_key / map pipeline written as the loop it denotes, key expression verbatim): Err iff there are no bins, otherwise the index of a bin of least total, for any number of bins; "
                "apply_output_processing / run_single_query (Verus, any number of output plugins): one query always yields one response value; it is the initial output with the plugins applied in order, and the first plugin "
                "failure turns it into an error response packaged with the ORIGINAL request; cache transparency of PredictionModelRecord::predict is carried by C08; a native witness runs batches of 1..9 queries at parallelism 1..4 through the real CompassApp::run (thorough tier)")
 NOT_DECIDED = "schedule / chunking / batch-order independence under rayon; isolation of failing queries inside run_batch_*; package_error (serde_json)"
-ASSUMPTIONS = ["rayon (unit c06_run): par_chunks / par_iter with map + collect / unzip process every element exactly once and keep the order of the input -- stated as the contracts of three opaque helpers", "min_bin / get_query_weight_estimate as assumed contracts in the Verus unit (min_bin's is checked by Kani up to 3 bins)"]
+ASSUMPTIONS = ["rayon (unit c06_run): par_chunks / par_iter with map + collect / unzip process every element exactly once and keep the order of the input -- stated as the contracts of three opaque helpers", "get_query_weight_estimate as an assumed contract in the Verus unit (any answer, including an error); OrderedFloat's order is the order of the reals (A-REAL)"]
